@@ -185,12 +185,14 @@ example : WFV (.list [.int "1" {}, .obj [("k", {}, .str "a\"b" {})] {}, .bool tr
 
 open NitroVerif.StringParse in
 /-- `render_parse_string_value_general`: ANY legal normal string literal (`SItem`s: plain characters, simple escapes, `\uXXXX`,
-    `\u{X…}`; see `string_decode_general` in `Props/C07.lean`) whose escapes all denote scalar values, wherever it occurs in an
+    `\u{X…}`; see `string_decode_general` in `Props/C07.lean`) that the builder's loop decodes to `s` (`decodeItems`: surrogate
+    pairs `\uHHHH\uLLLL` combined, fix fff8e9c; by `string_decode_general_spec` exactly the literals the specification gives a
+    value), wherever it occurs in an
     input, is parsed by the `Value` rule (the earlier alternatives `Variable`, `IntValue`, `FloatValue` fail on `"`) into one
     pair on which `build_value` returns the string value with the decoded characters `s` and the position of the opening
     quote — and by the `Description` rule into one pair on which the description builder returns `s`. -/
 theorem render_parse_string_value_general (it : SItem) (its : List SItem) (hok : AllOk (it :: its)) (s : List Char)
-    (hs : (it :: its).mapM SItem.decode = .ok s) (inp : List Char) (off : Nat) (rest : List Char)
+    (hs : decodeItems false (it :: its) = .ok s) (inp : List Char) (off : Nat) (rest : List Char)
     (h : inp.drop off = '"' :: (litText (it :: its) ++ '"' :: rest)) (fuel bfuel : Nat)
     (hf : (litText (it :: its)).length + 70 ≤ fuel) (hb : 1 ≤ bfuel) :
     (∃ pair, Peg.run gList fuel R.Value inp off .nonAtomic = some (off + ((litText (it :: its)).length + 2), [pair]) ∧
@@ -250,7 +252,7 @@ theorem render_parse_block_string_value_raw (body : List Char) (h3 : noBareTripl
     rw [h', this]
 
 /-- the hypotheses are satisfiable: `"\u00e9t\u{e9}"` and `"""été"""` both denote `été` -/
-example : ([StringParse.SItem.u4 '0' '0' 'e' '9', .plain 't', .ubrace ['e', '9']].mapM StringParse.SItem.decode).toOption =
+example : (StringParse.decodeItems false [StringParse.SItem.u4 '0' '0' 'e' '9', .plain 't', .ubrace ['e', '9']]).toOption =
       some ['é', 't', 'é'] ∧
     StringParse.noBareTriple "été".toList = true ∧ StringParse.endsPlain "été".toList = true := by decide
 
